@@ -1,6 +1,7 @@
 import StorageModel.Driver.Common
 import StorageModel.Zql.Unescape
 import StorageModel.Zql.LitFilter
+import StorageModel.Zql.LitSet
 import StorageModel.Generated.UnescapeTable
 namespace StorageModel.Driver.C11
 open StorageModel StorageModel.Zql StorageModel.Driver
@@ -94,6 +95,76 @@ def mixed (spec : Bool) (toks : List String) : String :=
       | none => false)
   | _ => "bad-case"
 
+
+/-! ### `s` cases: filters over set symbols -/
+
+def parseSetOp : String → Option SetOp
+  | "eq" => some .eq
+  | "ne" => some .ne
+  | "contains" => some .contains
+  | "ncontains" => some .notContains
+  | "icontains" => some .icontains
+  | "nicontains" => some .notIcontains
+  | _ => none
+
+def parseQuant : String → Option Quant
+  | "any" => some .any
+  | "all" => some .all
+  | _ => none
+
+/-- prefix form: `A x y` | `O x y` | `N x` | `Q <any|all> <sym> <op> <lit> <s>` | `J <any|all> <sym> <k> (<lit> <s>)^k` -/
+def parseSetFilter : Nat → List String → Option (SetFilter × SetFilter × List String)
+  | 0, _ => none
+  | fuel + 1, toks =>
+    match toks with
+    | "A" :: rest => do
+      let (a, a', r1) ← parseSetFilter fuel rest
+      let (b, b', r2) ← parseSetFilter fuel r1
+      pure (.and a b, .and a' b', r2)
+    | "O" :: rest => do
+      let (a, a', r1) ← parseSetFilter fuel rest
+      let (b, b', r2) ← parseSetFilter fuel r1
+      pure (.or a b, .or a' b', r2)
+    | "N" :: rest => do
+      let (a, a', r1) ← parseSetFilter fuel rest
+      pure (.not a, .not a', r1)
+    | "Q" :: q :: sym :: op :: l :: s :: rest => do
+      let qv ← parseQuant q
+      let o ← parseSetOp op
+      let lv ← Bytes.ofHex l
+      let sv ← Bytes.ofHex s
+      pure (.cmp qv sym.toNat! o lv, .cmp qv sym.toNat! o sv, rest)
+    | "J" :: q :: sym :: k :: rest => do
+      let qv ← parseQuant q
+      let (ls, ss, r1) ← parsePairs k.toNat! rest
+      pure (.inl qv sym.toNat! ls, .inl qv sym.toNat! ss, r1)
+    | _ => none
+
+def splitTok (t : String) : List String → List (List String)
+  | [] => [[]]
+  | x :: xs =>
+    let r := splitTok t xs
+    if x == t then [] :: r else
+      match r with
+      | h :: tl => (x :: h) :: tl
+      | [] => [[x]]
+
+/-- `R S <elem>… S <elem>… R …`: rows of sets; the elements are put in key order (what the bucket does) -/
+def parseRows (toks : List String) : List SetRow :=
+  ((splitTok "R" toks).drop 1).map fun row =>
+    ((splitTok "S" row).drop 1).map fun set => sortElems (set.filterMap Bytes.ofHex)
+
+/-- `s <s> <filter tokens…> . <rows>`: one verdict per row, the rows evaluated one after the other on the same runtime
+    objects; printed twice (memory symbols, bolt store) -/
+def setCase (spec : Bool) (toks : List String) : String :=
+  match parseSetFilter (toks.length + 1) toks with
+  | some (fl, fs, "." :: rest) =>
+    let rows := parseRows rest
+    let b := if spec then bits (rows.map fun r => specSet r fs)
+      else bits (runRows false (fl.map (unescape Generated.unescapeTable)) rows Rt.init)
+    b ++ " " ++ b
+  | _ => "bad-case"
+
 def step (line : String) : String :=
   match splitSp line with
   | ["u", lit, _s] =>
@@ -127,6 +198,7 @@ def step (line : String) : String :=
         | none => false)
     | _, _ => "bad-case"
   | "m" :: _s :: toks => mixed false toks
+  | "s" :: _s :: toks => setCase false toks
   | _ => "bad-case"
 
 /-- spec verdict: the same, with the *intended* string `s` instead of the model's reading -/
@@ -155,6 +227,7 @@ def specStep (line : String) : String :=
         | none => false)
     | _, _ => "bad-case"
   | "m" :: _s :: toks => mixed true toks
+  | "s" :: _s :: toks => setCase true toks
   | _ => "bad-case"
 
 def run (spec : Bool) : IO Unit := forEachLine (if spec then specStep else step)
